@@ -22,7 +22,7 @@ theorem tie_biosL2Cookie : biosL2Cookie = AmdManifest.BIOSDirectoryTableLevel2Co
 theorem tie_pspL2EntryType : pspL2EntryType = AmdManifest.PSPDirectoryTableLevel2Entry := by decide
 theorem tie_biosL2EntryType : biosL2EntryType = AmdManifest.BIOSDirectoryTableLevel2Entry := by decide
 theorem tie_pspEntrySize : pspEntrySize = AmdManifest.PSPDirectoryTableEntrySize := by decide
-/-- the constant used by the BIOS pre-check is (still) 16; the model's `parseBIOS` uses it there -/
+/-- the constant used by the BIOS pre-check (24 = the entry size since fixes/C20-amd-bios-scan-quadratic.diff); the model's `parseBIOS` uses it there -/
 theorem tie_biosEntrySizeConst : biosEntrySizeConst = AmdManifest.BIOSDirectoryTableEntrySize := by decide
 theorem tie_basePhysAddr : basePhysAddr = AmdManifest.basePhysAddr := by decide
 theorem tie_checksumOffset_psp : checksumDataOffset = AmdManifest.pspDirectoryChecksumDataOffset := by decide
